@@ -288,7 +288,7 @@ def run(replay=None):
     FIXED = C.tla_str(set(A.repaired_deviations(PID, DEVIATIONS)))
     t = C.tier()
     rnd = C.rng(8)
-    r = C.run_tlc(wd, "MagnitudeGen", CFG.format(uinfo="ExactUnits", source="enum", lemmas="INVARIANT Lemmas", fixed=FIXED))
+    r = C.run_tlc(wd, "MagnitudeGen", CFG.format(uinfo="ExactUnits", source="enum", lemmas="INVARIANT Lemmas\nINVARIANT GridLemma", fixed=FIXED))
     if r.violated:
         raise C.MachineryError(f"MagnitudeGen: {r.violated} violated on the rational model:\n{r.cex[:3000]}")
     recs = r.records
@@ -339,7 +339,7 @@ def run(replay=None):
     })
     V.assumptions += [
         "operands are constructed with an absolute uncertainty (abse=); construction from rele= of a negative value is outside the quantifier",
-        "first-order bounds are required for two uncertain positive operands however large their relative uncertainty; only a divisor whose interval ends exactly at zero is unspecified",
+        "positive values = for a quotient (and a negative power) the divisor's / base's whole uncertainty interval is positive (|b| > db); quotients whose divisor interval reaches or crosses zero are unspecified (the quotient is unbounded there); products owe the first-order bound for any uncertainties (TLC proves it for the code's formula on a grid)",
         "power: only non-negativity is required (the statement gives no formula)",
         "tolerance rel 1e-9; table factors are the library's own",
     ]
